@@ -20,10 +20,10 @@ use std::collections::BTreeSet;
 
 use super::common::{
     Flavor, VResult, assignments, braced, collect_bound_object_handles,
-    collect_mutation_value_handles, collect_mutation_value_paths, collect_where_variables,
-    element_ref, fail, handle, mutation_value, object_matcher, opt_after, parenthesized,
-    proposition_matcher, quoted_string, scalar, spanned, symbol_ref, unset_field_set, where_block,
-    word, words, ws,
+    collect_mutation_value_handles, collect_mutation_value_paths, collect_term_variables,
+    collect_where_variables, element_ref, fail, handle, mutation_value, object_matcher, opt_after,
+    parenthesized, proposition_matcher, quoted_string, scalar, spanned, symbol_ref,
+    unset_field_set, where_block, word, words, ws,
 };
 use crate::ast::{
     Assignments, BoundValue, ConceptCreate, ConceptUpsert, CorrectEvidence, DotPathVar, ElementRef,
@@ -1452,7 +1452,12 @@ fn collect_clause_handles(clause: &MutationClause, out: &mut BTreeSet<String>) {
             collect_facets_handles(&c.set_facets, out);
             collect_edges_handles(c.set_structural.as_ref(), out);
         }
-        MutationClause::EnsureProposition(_) => {}
+        // ENSURE PROPOSITION has no WHERE: a ?variable endpoint can only be a
+        // handle of this plan.
+        MutationClause::EnsureProposition(c) => {
+            collect_term_variables(&c.subject, out);
+            collect_term_variables(&c.object, out);
+        }
         MutationClause::Update(c) => {
             element(&c.target);
             for action in &c.actions {
